@@ -762,9 +762,16 @@ def gen_gather(rng, i):
             ops.append("restart,0")
         m = rng.choice(TURN_MODES[:-1])
         k = len(turns)
-        ops.append("server,10.9.%d.1,3478,%s" % (k + 1, m))
-        for c in range(1, ncomp + 1):
-            ops.append("relay,0,1,%d,10.9.%d.1,3478" % (c, k + 1))
+        if rng.random() < 0.35:
+            # the late relay server is given by host name (resolved asynchronously to 127.0.0.1): silent or erroring, so no candidate is expected
+            m = rng.choice(["silent", "err400", "err437"])
+            ops.append("server,127.0.0.1,3478,%s" % m)
+            for c in range(1, ncomp + 1):
+                ops.append("relayname,0,1,%d,3478" % c)
+        else:
+            ops.append("server,10.9.%d.1,3478,%s" % (k + 1, m))
+            for c in range(1, ncomp + 1):
+                ops.append("relay,0,1,%d,10.9.%d.1,3478" % (c, k + 1))
         turns2.append(m)
         ops += ["run,20000"] + ["localcands,0,1,%d" % c for c in range(1, ncomp + 1)]
     return "gath%d %s" % (i, " ".join(ops)), {"kind": "gather", "ncomp": ncomp, "ips": ips, "stun": stun, "turns": turns, "turns2": turns2, "again": again}
